@@ -679,9 +679,15 @@ type truncationCheckingReader struct {
 	io.Reader
 	ciphertext  *countingReader // what the wrapped reader consumes, from the tink stream header on
 	segmentSize int64
+	err         error // the end of the stream, once reached
 }
 
 func (t *truncationCheckingReader) Read(p []byte) (int, error) {
+	// The wrapped reader delivers its last segment again when it is read after
+	// it reported io.EOF; the end of the stream has to stay the end.
+	if t.err != nil {
+		return 0, t.err
+	}
 	n, err := t.Reader.Read(p)
 	if err == io.EOF {
 		tinkHeaderLen := int64(1 + tinkKeySize + tinkNoncePrefixSize)
@@ -692,6 +698,9 @@ func (t *truncationCheckingReader) Read(p []byte) (int, error) {
 		if lastSegmentLen < tinkTagSize {
 			err = io.ErrUnexpectedEOF
 		}
+	}
+	if err != nil {
+		t.err = err
 	}
 	return n, err
 }
